@@ -425,7 +425,8 @@ func (k Keeper) CloseEnglishAuction(ctx sdk.Context, englishAuction types.Auctio
 			return err
 		}
 
-		err = k.collector.SetNetFeeCollectedData(ctx, englishAuction.AppId, englishAuction.CollateralAssetId, englishAuction.CollateralToken.Amount)
+		// the debt token (the collector asset) is what entered the collector: book exactly that amount
+		err = k.collector.SetNetFeeCollectedData(ctx, englishAuction.AppId, englishAuction.CollateralAssetId, englishAuction.DebtToken.Amount)
 		if err != nil {
 			return types.ErrorUnableToSetNetFees
 		}
